@@ -103,7 +103,7 @@ Proof.
     destruct (refs s !! fid) as [sf|] eqn:Hl.
     + destruct (Hwf _ _ Hl) as (_ & _ & e & d & He & _).
       cbn [mbind option_bind]. rewrite (abs_sfid_unfold _ _ _ He). by apply refines_same.
-    + cbn [mbind option_bind]. destruct (fs_err (tokn ts 0)).
+    + cbn [mbind option_bind]. destruct (nn_err (tokn ts 0)).
       * cbn. split_and!; [|done|].
         -- eapply WF_refs; [|exact Hwf]. sproj. by rewrite delete_insert.
         -- f_equal. symmetry. apply abs_eq; sproj; [|done]. by rewrite delete_insert.
@@ -310,7 +310,7 @@ Proof.
   rewrite Hsp, (abs_sfid_unfold _ _ _ He). cbn [b_open b_ent b_dir].
   destruct (negb d); [by rsame|].
   destruct (t_fail (tokn ts 0) =? 1); [by rsame|].
-  destruct (t_fail (tokn ts 0) =? 2); [by rsame|].
+  destruct ((t_fail (tokn ts 0) =? 2) || (t_fail (tokn ts 0) =? 4)); [by rsame|].
   destruct (t_fail (tokn ts 0) =? 0).
   - unfold fresh. cbn [fst snd]. destruct (t_dir (tokn ts 0)).
     + destruct (nn_err (tokn ts 1)).
